@@ -23,6 +23,9 @@ CHECKS = {
             {"name": "c19", "run": "^TestC19_", "shards": {"quick": 8, "thorough": 16},
              "timeout": {"quick": 600, "thorough": 3000},
              "checks": ["c19-queue", "c19-e2e-latency", "c19-poll-requests"]},
+            {"name": "c19up", "run": "^TestC07_PausedPoll$", "shards": {"quick": 8, "thorough": 16},
+             "timeout": {"quick": 900, "thorough": 3000}, "env": {"VERIF_AS": "C19"},
+             "checks": ["c19-backlog-across-upgrade"]},
         ],
     },
     "C09": {
